@@ -26,10 +26,13 @@ class Top(Elaboratable):
         self.ctr = Signal(16)
         self.rename = False        # set by simulate(): the DUTs live in a clock domain that is not called "sync"
         self.unclocked = ()        # names of purely combinational DUTs that are given a domain whose clock never ticks
+        self.rst = Signal(name="vmon_rst")      # synchronous reset of the whole design, pulsed by benches that model it
 
     def elaborate(self, platform):
         m = Module()
         m.d.sync += self.ctr.eq(self.ctr + 1)
+        from amaranth import ResetSignal
+        m.d.comb += ResetSignal("sync").eq(self.rst)
         wrap = lambda sub: sub
         if self.rename:
             # what a SoC with several clock domains does with every peripheral: DomainRenamer. The renamed domain
@@ -107,6 +110,24 @@ class Mon:
 
 
 CURRENT_CASE_SEED = ""      # set by the worker before each case (deterministic per-case choices made here)
+CURRENT_TOP = None          # the Top being simulated (set by simulate())
+
+
+def reset_plan(cycles, p=0.2):
+    """Cycles in which the design's synchronous reset is asserted (a warm reset in the middle of traffic), chosen
+    deterministically from the case's stimulus seed: empty for most cases, else 1-3 cycles. A bench that uses it
+    drives the reset with drive_reset() and re-initialises its reference model at the end of such a cycle:
+    registers return to their initial values at that clock edge whatever else happens in the cycle."""
+    import os
+    import random
+    r = random.Random(CURRENT_CASE_SEED + ":reset")
+    if r.random() >= p and not os.environ.get("VMON_FORCE_RESET"):
+        return frozenset()
+    return frozenset(r.randrange(2, max(3, cycles - 2)) for _ in range(r.choice([1, 1, 2, 3])))
+
+
+def drive_reset(ctx, on):
+    ctx.set(CURRENT_TOP.rst, int(bool(on)))
 
 
 def simulate(top, bench, mon=None):
@@ -118,6 +139,8 @@ def simulate(top, bench, mon=None):
     component yields on its second elaboration (simulate-after-synthesise)."""
     import os
     import zlib
+    global CURRENT_TOP
+    CURRENT_TOP = top
     if isinstance(top, Top) and (zlib.crc32(("dom:" + CURRENT_CASE_SEED).encode()) % 6 == 0 or os.environ.get("VMON_FORCE_RENAME")):
         top.rename = True
         if mon is not None:
